@@ -383,4 +383,205 @@ theorem groupDecode_eq (bs : List Nat) (hb : ∀ b ∈ bs, b < 256) (h64 : bs.le
             refine ⟨?_, by omega⟩
             rw [hvl, hl]
 
+/-! ### varintGroupSize (the size predictor) and varintGroupGetField (random access) -/
+
+theorem width_loop_sz : ∀ (f v e : Nat), extLen v ≤ f → e + extLen v < 2 ^ 32 →
+    groupSize_loop2 f (v, e) = .done (0, e + extLen v - 1) := by
+  intro f
+  induction f with
+  | zero => intro v e h; have := extLen_pos v; omega
+  | succ f ih =>
+    intro v e hf he
+    unfold groupSize_loop2
+    simp only [Nat.reducePow]
+    rw [extLen_eq] at hf he ⊢
+    by_cases c : v < 256
+    · have h0 : v / 256 = 0 := by omega
+      simp only [h0, if_pos c, ne_eq, not_true_eq_false, if_false]
+      rw [Nat.add_sub_cancel]
+    · simp only [if_neg c] at hf he ⊢
+      have h0 : v / 256 ≠ 0 := by omega
+      rw [if_pos h0]
+      have hp := extLen_pos (v / 256)
+      rw [Nat.mod_eq_of_lt (by omega)]
+      rw [ih (v / 256) (e + 1) (by omega) (by omega)]
+      congr 2
+      omega
+
+theorem size_loop (xs : List Nat) (hx : ∀ x ∈ xs, x < 2 ^ 64) (hc : xs.length ≤ 64) :
+    ∀ (n i tot : Nat), i + n = xs.length → tot + 8 * n < 2 ^ 64 → ∀ fuel, n + 9 ≤ fuel →
+      groupSize_loop1 (bufOf xs) xs.length fuel (i, tot) = .done (xs.length, tot + ((xs.drop i).map normW).sum) := by
+  intro n
+  induction n with
+  | zero =>
+    intro i tot hi _ fuel hf
+    obtain ⟨f, rfl⟩ : ∃ f', fuel = f' + 1 := ⟨fuel - 1, by omega⟩
+    have : i = xs.length := by omega
+    subst this
+    have c1 : ¬ (((xs.length : Nat) : Int) < ((xs.length : Nat) : Int)) := by omega
+    simp [groupSize_loop1, c1]
+  | succ n ih =>
+    intro i tot hi htot fuel hf
+    obtain ⟨f, rfl⟩ : ∃ f', fuel = f' + 1 := ⟨fuel - 1, by omega⟩
+    have c1 : (((i : Nat) : Int) < ((xs.length : Nat) : Int)) := by omega
+    have hdrop : xs.drop i = xs[i]'(by omega) :: xs.drop (i + 1) := by
+      rw [List.drop_eq_getElem_cons (by omega)]
+    have hv : bufOf xs i = xs[i]'(by omega) := by
+      unfold bufOf; rw [List.getD_eq_getElem?_getD, List.getElem?_eq_getElem (by omega)]; rfl
+    have hlt := hx _ (List.getElem_mem (show i < xs.length by omega))
+    have h8 := extLen_le_8 hlt
+    have h1 := extLen_pos (xs[i]'(by omega))
+    simp only [groupSize_loop1, if_pos c1, hv]
+    rw [width_loop_sz f _ 1 (by omega) (by omega)]
+    simp only [show 1 + extLen (xs[i]'(by omega)) - 1 = extLen (xs[i]'(by omega)) by omega]
+    have e1 : (i + 1) % 2 ^ 8 = i + 1 := by omega
+    have hn : (if extLen (xs[i]'(by omega)) ≤ 1 then (tot + 1) % 2 ^ 64
+        else if extLen (xs[i]'(by omega)) ≤ 2 then (tot + 2) % 2 ^ 64
+        else if extLen (xs[i]'(by omega)) ≤ 4 then (tot + 4) % 2 ^ 64 else (tot + 8) % 2 ^ 64) =
+        tot + normW (xs[i]'(by omega)) := by
+      unfold normW
+      simp only []
+      split
+      · exact Nat.mod_eq_of_lt (by omega)
+      · split
+        · exact Nat.mod_eq_of_lt (by omega)
+        · split
+          · exact Nat.mod_eq_of_lt (by omega)
+          · exact Nat.mod_eq_of_lt (by omega)
+    rw [hn, e1, hdrop]
+    have hnw := normW_le_8 (xs[i]'(by omega))
+    rw [ih (i + 1) _ (by omega) (by omega) f (by omega)]
+    simp only [List.map_cons, List.sum_cons]
+    congr 2
+    omega
+
+/-- **`varintGroupSize(values, n)`** = the model's size predictor, for every field list of 64-bit values (n = 0 or
+    n > 64 gives 0), every fuel ≥ n + 9 -/
+theorem groupSize_eq (xs : List Nat) (hx : ∀ x ∈ xs, x < 2 ^ 64) (h256 : xs.length < 256) (fuel : Nat)
+    (hf : xs.length + 9 ≤ fuel) : groupSize fuel (bufOf xs) xs.length = some (Group.size xs) := by
+  unfold groupSize Group.size
+  by_cases c0 : xs.length = 0 ∨ xs.length > 64
+  · rw [if_pos c0, if_pos (by omega)]
+  · rw [if_neg c0, if_neg (by omega), Sizes.groupBitmapSize_eq _ h256]
+    have hbm : bitmapSize xs.length ≤ 17 := by unfold bitmapSize; omega
+    simp only []
+    rw [Nat.mod_eq_of_lt (show 1 + bitmapSize xs.length < 2 ^ 64 by omega)]
+    rw [size_loop xs hx (by omega) xs.length 0 _ (by omega) (by omega) fuel hf]
+    simp
+
+theorem getField_loop (bs ws : List Nat) (idx : Nat) (hidx : idx < 64) (hw : widths bs (idx + 1) = some ws) (base : Nat)
+    (hbase : base + 8 * 64 < 2 ^ 64) :
+    ∀ (n j : Nat), j + n = idx → ∀ (a b c d : Nat) fuel, n < fuel →
+      ∃ a' b' c' d', groupGetField_loop1 (bufOf bs) idx fuel (j, a, b, c, d, base + (ws.take j).sum) =
+        .done (idx, a', b', c', d', base + (ws.take idx).sum) := by
+  have hl := widths_length bs _ ws hw
+  have hws := widths_le8 bs ws _ hw
+  have hsum : ∀ k, (ws.take k).sum ≤ 8 * k := by
+    intro k
+    induction k with
+    | zero => simp
+    | succ k ih =>
+      by_cases hk : k < ws.length
+      · rw [sum_take_succ ws k hk]
+        have : ws.getD k 0 ≤ 8 := by
+          rw [List.getD_eq_getElem?_getD, List.getElem?_eq_getElem hk]; exact hws _ (List.getElem_mem _)
+        omega
+      · rw [List.take_of_length_le (by omega)] at ih ⊢; omega
+  intro n
+  induction n with
+  | zero =>
+    intro j hj a b c d fuel hf
+    obtain ⟨f, rfl⟩ : ∃ f', fuel = f' + 1 := ⟨fuel - 1, by omega⟩
+    have : j = idx := by omega
+    subst this
+    have c1 : ¬ (((j : Nat) : Int) < ((j : Nat) : Int)) := by omega
+    simp only [groupGetField_loop1, if_neg c1]
+    exact ⟨_, _, _, _, rfl⟩
+  | succ n ih =>
+    intro j hj a b c d fuel hf
+    obtain ⟨f, rfl⟩ : ∃ f', fuel = f' + 1 := ⟨fuel - 1, by omega⟩
+    have c1 : (((j : Nat) : Int) < ((idx : Nat) : Int)) := by omega
+    simp only [groupGetField_loop1, if_pos c1]
+    rw [width_read bs ws _ hw j (by omega) (by omega)]
+    have e1 : (j + 1) % 2 ^ 8 = j + 1 := by omega
+    have hs := hsum j
+    have hg : ws.getD j 0 ≤ 8 := by
+      rw [List.getD_eq_getElem?_getD, List.getElem?_eq_getElem (by omega)]; exact hws _ (List.getElem_mem _)
+    have e2 : (base + (ws.take j).sum + ws.getD j 0) % 2 ^ 64 = base + (ws.take (j + 1)).sum := by
+      rw [sum_take_succ ws j (by omega), Nat.mod_eq_of_lt (by omega)]; omega
+    rw [e1, e2]
+    exact ih (j + 1) (by omega) _ _ _ _ f (by omega)
+
+/-- **`varintGroupGetField(src, i, &value)`** = the model's random access on every buffer the model reads inside of:
+    index out of range (or count 0) returns 0 and stores nothing; otherwise the field's value and the bytes from the start
+    through the field. Field index below 64, every fuel above 64. -/
+theorem groupGetField_eq (bs : List Nat) (hb : ∀ b ∈ bs, b < 256) (h64 : bs.length < 2 ^ 64) (i : Nat) (hi : i < 64)
+    (fuel : Nat) (hf : 64 < fuel) :
+    (getField bs i = some none → groupGetField fuel (bufOf bs) i = some (0, none)) ∧
+    (∀ v n, getField bs i = some (some (v, n)) → groupGetField fuel (bufOf bs) i = some (n, some v)) := by
+  cases bs with
+  | nil => simp [getField]
+  | cons c t =>
+    have hc : bufOf (c :: t) 0 = c := rfl
+    have hc256 : c < 256 := hb c (by simp)
+    unfold groupGetField getField
+    simp only [hc]
+    constructor
+    · intro hd
+      by_cases c0 : c = 0 ∨ i ≥ c
+      · rw [if_pos (by omega)]
+      · rw [if_neg c0] at hd
+        cases hw : widths (c :: t) (i + 1) with
+        | none => rw [hw] at hd; simp at hd
+        | some ws =>
+          rw [hw] at hd
+          simp only [] at hd
+          cases hp : takeExact (ws.getD i 1) ((c :: t).drop (1 + bitmapSize c + (ws.take i).sum)) with
+          | none => rw [hp] at hd; simp at hd
+          | some p => rw [hp] at hd; simp at hd
+    · intro v n hd
+      by_cases c0 : c = 0 ∨ i ≥ c
+      · rw [if_pos c0] at hd; simp at hd
+      · rw [if_neg c0] at hd
+        rw [if_neg (by omega)]
+        cases hw : widths (c :: t) (i + 1) with
+        | none => rw [hw] at hd; simp at hd
+        | some ws =>
+          rw [hw] at hd
+          simp only [] at hd
+          cases hp : takeExact (ws.getD i 1) ((c :: t).drop (1 + bitmapSize c + (ws.take i).sum)) with
+          | none => rw [hp] at hd; simp at hd
+          | some p =>
+            rw [hp] at hd
+            simp only [Option.some.injEq, Prod.mk.injEq] at hd
+            obtain ⟨rfl, rfl⟩ := hd
+            have hl := widths_length _ _ ws hw
+            have hbm : bitmapSize c ≤ 65 := by unfold bitmapSize; omega
+            have hgd : ws.getD i 1 = ws.getD i 0 := by
+              rw [List.getD_eq_getElem?_getD, List.getD_eq_getElem?_getD, List.getElem?_eq_getElem (by omega)]; rfl
+            have hw1 : 1 ≤ ws.getD i 0 := by
+              rw [List.getD_eq_getElem?_getD, List.getElem?_eq_getElem (by omega)]
+              exact widths_ge1 _ _ _ hw _ (List.getElem_mem _)
+            have hw8 : ws.getD i 0 ≤ 8 := by
+              rw [List.getD_eq_getElem?_getD, List.getElem?_eq_getElem (by omega)]
+              exact widths_le8 _ _ _ hw _ (List.getElem_mem _)
+            rw [hgd] at hp ⊢
+            obtain ⟨hpe, hple, _⟩ := takeExact_some hp
+            have hin : 1 + bitmapSize c + (ws.take i).sum + ws.getD i 0 ≤ (c :: t).length := by
+              rw [List.length_drop] at hple; omega
+            have e0 : (1 + 0 : Nat) = 1 := rfl
+            rw [Sizes.groupBitmapSize_eq c hc256, Nat.mod_eq_of_lt (show 1 + bitmapSize c < 2 ^ 64 by omega)]
+            have hwr := width_read (c :: t) ws _ hw i (by omega) (by omega)
+            obtain ⟨a', b', c', d', hloop⟩ := getField_loop (c :: t) ws i hi hw (1 + bitmapSize c) (by omega) i 0 (by omega)
+              ((((((i : Nat) : Int) * (2 : Int))) % (2 ^ 64 : Int)).toNat)
+              ((1 + (((((i : Nat) : Int) * (2 : Int))) % (2 ^ 64 : Int)).toNat / 8) % 2 ^ 64)
+              ((((((i : Nat) : Int) * (2 : Int))) % (2 ^ 64 : Int)).toNat % 8)
+              (((((((bufOf (c :: t) ((1 + (((((i : Nat) : Int) * (2 : Int))) % (2 ^ 64 : Int)).toNat / 8) % 2 ^ 64) : Nat) : Int) /
+                2 ^ ((((((i : Nat) : Int) * (2 : Int))) % (2 ^ 64 : Int)).toNat % 8)) % (4 : Int)) % (2 ^ 8 : Int)).toNat))
+              fuel (by omega)
+            simp only [List.take_zero, List.sum_nil, Nat.add_zero] at hloop
+            simp only [hwr, hloop]
+            rw [External.extGet_eq _ _ hw1 hw8 (fun k _ => bufOf_lt _ hb _), Dim.range_map_bufOf _ _ _ hin, ← hpe,
+              Nat.mod_eq_of_lt (by omega)]
+
 end Varint.Bridge.Group
